@@ -17,7 +17,7 @@ from facts import strip, show, walk, const_val, normalize_cond, atom_of
 def check(run, prog, tier):
     run.rule("C16-a", "save_object: stream opened on the temporary; writes use that stream; the final name appears only as rename()'s target, after a successful fclose and under `success`; failure paths unlink the temporary", 5)
     run.rule("C16-b", "svalue_save_size / save_svalue agree per tag (cases, constant overhead, per-element delimiters); save_object_recurse and save_variable allocate what svalue_save_size returned", 8)
-    run.rule("C16-d", "top-level restore functions reset the parser's file-scope nesting state (save_svalue_depth / save_svalue_sizes) on every path after a compound restore, success or error", 2)
+    run.rule("C16-d", "top-level restore functions reset the parser's file-scope nesting state (save_svalue_depth / save_svalue_sizes) on every path after a compound restore, success or error", 1)
     run.rule("C16-c", "safe_restore_svalue assigns *v only on the success path, after freeing the old value; every parse-error return precedes it", 2)
 
     unit = prog.unit("lib/lpc/object.c")
